@@ -2,7 +2,13 @@
   SrvConn — one server connection as a transition system: `kmipserver/conn.go` (newConn, terminate,
   checkAvailable, readloop, writeloop, send, recv) and the connection part of `server.go handleConn`
   (connect hook, request loop, deferred terminate hook / stream.Close / wg.Done), as of the CURRENT
-  code (tx channel swapped for nil but never closed, per-message error channel of capacity 1).
+  code (tx channel swapped for nil but never closed, per-message error channel of capacity 1) — with ONE
+  exception: the owner's deferred `stream.Close()` is modelled as `terminate` only. The `c.loops.Wait()`
+  that conn.Close makes since /repo aa935a6 (wait for readloop and writeloop before `wg.Done`) is NOT in
+  this model; it is a state of the C16 model (`Model/Server.lean`, `closeWaits`). The model therefore
+  over-approximates the current owner (it also allows `m = ended` with reader / writer alive); that the
+  owner cannot hang in that wait is argued (after terminate neither loop can block) and observed by the
+  engines, not proved here.
 
   Three processes with explicit program counters: owner `M` (the handleConn goroutine), reader `R`
   (readloop), writer `W` (writeloop). Unbuffered channel operations are rendezvous (ONE joint step),
@@ -49,7 +55,8 @@ structure Params where
   errChCap : Nat
   deriving Repr, DecidableEq
 
-/-- the code at /repo HEAD. -/
+/-- the code at /repo HEAD (up to the wait of `conn.Close` for both loops, aa935a6, which this model does
+    not contain: see the header). -/
 def current : Params := { closesTx := false, errChCap := 1 }
 /-- before d24e630. -/
 def oldClosesTx : Params := { closesTx := true, errChCap := 1 }
